@@ -15,8 +15,8 @@ def c04(tier):
                       params=dict(focus="c08", wl="OBIM_barrier", maxitems=600)))
     else:
         for t in TOPOS_THOROUGH:
-            runs.append(H("c04_termination", "plain", 3000, t, timeout_per_case=20))
-            runs.append(H("c04_termination", "asan", 800, t, timeout_per_case=60))
+            runs.append(H("c04_termination", "plain", 1800, t, timeout_per_case=20))
+            runs.append(H("c04_termination", "asan", 400, t, timeout_per_case=60))
         for cpus in (2, 4):
             runs.append(H("c04_termination", "plain", 400, "12,12,8", cpus=cpus, timeout_per_case=90, params=dict(oversub=1)))
         runs.append(H("c04_termination", "tsan", 300, "4,4,4,4", timeout_per_case=120, params=dict(det=0)))
